@@ -1,13 +1,13 @@
 \* C03 conservation, unit footprint sum, halo = zero padding -- thorough
 CONSTANTS
   ShiftStyle = "pad" LevelStyle = "match" TruncStyle = "exact" AnalyticStyle = "outer" BCubic = "plus"
-  Sizes = {202, 302, 403, 304, 502}
+  Sizes = {202, 302, 403, 304}
   Cells = {11, 23, 32}
   Halos = {99, 0, 1, 2, 3, 4, 6}
-  ModeSet = {202, 402, 204, 404, 1212}
+  ModeSet = {202, 402, 204, 1212}
   NZs = {4}
-  LevelLists = "pairs"
-  Tabs = {1, 2}
+  LevelLists = "mixed"
+  Tabs = {1}
   Analytic = {FALSE, TRUE}
   Family = "conserve"
 INIT Init
